@@ -68,6 +68,8 @@ struct Cond
 struct Sem
 {
     long count = 0;
+    int inside = 0;     // managed threads that took a count and have not posted since
+    int max_inside = 0; // the most that were in that state at once
 };
 
 // one decision of the schedule: how many options there were and which was taken
@@ -614,7 +616,13 @@ extern "C"
         t->state = T_WANT_SEM;
         t->obj = sm;
         yield_now();
-        S().sems[sm].count--;
+        {
+            Sem &ss = S().sems[sm];
+            ss.count--;
+            ss.inside++;
+            if (ss.inside > ss.max_inside)
+                ss.max_inside = ss.inside;
+        }
         t->state = T_RUNNABLE;
         return 0;
     }
@@ -655,7 +663,12 @@ extern "C"
         Thread *t = tl_self;
         t->state = T_RUNNABLE;
         yield_now();
-        S().sems[sm].count++;
+        {
+            Sem &ss = S().sems[sm];
+            ss.count++;
+            if (ss.inside > 0)
+                ss.inside--;
+        }
         return 0;
     }
     int sem_getvalue(sem_t *sm, int *val)
